@@ -29,6 +29,13 @@ func (t Token) Validate() error {
 		return errorsmod.Wrapf(ErrInvalidAmount, "amount must be strictly positive: got %d", amount)
 	}
 
+	// ICS-20 amounts are decimal strings. math.NewIntFromString also accepts other bases ("010" is read as
+	// octal 8, "0x10" as 16) which the other packet data encodings read differently, so only accept the
+	// canonical decimal form.
+	if amount.String() != t.Amount {
+		return errorsmod.Wrapf(ErrInvalidAmount, "transfer amount (%s) is not a canonical decimal integer", t.Amount)
+	}
+
 	return nil
 }
 
